@@ -748,6 +748,7 @@ class PDFDocument:
         self._parser = None
         self._cached_objs: Dict[int, Tuple[object, int]] = {}
         self._parsed_objs: Dict[int, Tuple[List[object], int]] = {}
+        self._objstms_being_read: Set[int] = set()
         self._parser = parser
         self._parser.set_document(self)
         self.is_printable = self.is_modifiable = self.is_extractable = True
@@ -893,7 +894,16 @@ class PDFDocument:
                     continue
                 try:
                     if strmid is not None:
-                        stream = stream_value(self.getobj(strmid))
+                        if strmid in self._objstms_being_read:
+                            # object streams are never stored in object streams
+                            raise PDFSyntaxError(
+                                "Object stream %r is stored inside itself" % strmid
+                            )
+                        self._objstms_being_read.add(strmid)
+                        try:
+                            stream = stream_value(self.getobj(strmid))
+                        finally:
+                            self._objstms_being_read.discard(strmid)
                         obj = self._getobj_objstm(stream, index, objid)
                     else:
                         obj = self._getobj_parse(index, objid)
